@@ -268,3 +268,34 @@ Definition to_query_str (m : list (str * qval)) (comma_delimited_lists prefix : 
   if is_nil m then Ok []
   else bind (entries_text comma_delimited_lists m)
             (fun body => Ok (removelast ((if prefix then [63] else []) ++ body))).
+
+(* ------------------------------------------------------------------ purity
+   None of the getters assigns to self._params (a store= dict is the only thing they may write):
+   a getter call is a function of the mapping, and the mapping afterwards is the mapping before.
+   A history of calls is therefore modelled as a fold that threads the mapping unchanged. *)
+Inductive gcall :=
+| CGet (name : str) (required : bool)
+| CInt (name : str) (required : bool) (mn mx : option Z)
+| CBool (name : str) (required blank_as_true : bool)
+| CList (name : str) (required : bool)
+| CHas (name : str).
+
+Inductive gout :=
+| OStr (o : outcome str) | OInt (o : outcome Z) | OBool (o : outcome bool)
+| OList (o : outcome (list str)) | OHas (b : bool).
+
+Definition do_call (fixed : bool) (p : params) (c : gcall) : gout * params :=
+  match c with
+  | CGet n r => (OStr (get_param fixed p n r), p)
+  | CInt n r mn mx => (OInt (get_param_as_int fixed p n r mn mx), p)
+  | CBool n r b => (OBool (get_param_as_bool fixed p n r b), p)
+  | CList n r => (OList (get_param_as_list p n r), p)
+  | CHas n => (OHas (has_param p n), p)
+  end.
+
+Fixpoint do_calls (fixed : bool) (p : params) (cs : list gcall) : list gout * params :=
+  match cs with
+  | [] => ([], p)
+  | c :: tl => let '(o, p1) := do_call fixed p c in
+               let '(os, p2) := do_calls fixed p1 tl in (o :: os, p2)
+  end.
